@@ -381,7 +381,7 @@ func runC16(r *core.Run) {
 		}
 		r.Distinct(core.Hash64(raw))
 	})
-	n := r.N(2500, 10000)
+	n := r.N(2500, 40000)
 	core.Parallel(n, workers(), func(i int) {
 		c := genC16(r, i)
 		c16Eval(r, c)
